@@ -11,7 +11,7 @@ ID = "C06"
 LEVEL = "exploration"
 BUDGET = {"quick": 55, "thorough": 900}
 QUICK_CASES = 1500  # generator items in the quick tier (fixed amount of work; BUDGET is then only a safety cap)
-FLOOR = {"quick": 8000, "thorough": 20000}
+FLOOR = {"quick": 8000, "thorough": 8000}  # conclusive cases below which a run is inconclusive (the thorough tier is time-budgeted: same floor)
 TIMEOUT = 120
 REQUIRED_OBS = ["next_time_queries", "metamorphic_checks", "running_windows", "runs_observed", "instants_expected"]
 RULE = (
